@@ -367,7 +367,18 @@ fn absorb_site_log(w: &mut MWorld) {
     w.orc.site_log_pos += new.len();
     let permit = engine::site_index("managed.get.permit").unwrap() as u16;
     let pre_acquire = engine::site_index("sync.sem.pre_acquire").unwrap() as u16;
+    let post_unlock = engine::site_index("sync.mutex.post_unlock").unwrap() as u16;
     for (step, actor, site) in new {
+        if site == post_unlock && actor != CONTROLLER && w.orc.idle_prev_valid {
+            // a lock region of this actor ended in this step: remember the idle queue as it
+            // was when the step began (C08: what a get found when it looked for an idle object)
+            if let Some(Some(opi)) = w.cur_op.get(actor) {
+                let opi = *opi;
+                if step == engine::current_step() {
+                    w.ops[opi].last_lock_idle = Some(w.orc.idle_prev.clone());
+                }
+            }
+        }
         if site == pre_acquire && actor != CONTROLLER {
             // the wait timer of a blocking get is created in the very step that reaches the
             // semaphore for the first time
@@ -1081,10 +1092,16 @@ pub fn c08_on_call(w: &mut MWorld, ci: usize) {
         return;
     }
     if c.kind == CallKind::Create && c.actor != CONTROLLER {
-        // lazy creation: the idle queue must be empty at the moment create() is called
-        if let Some(sn) = snapshot(w) {
-            if !sn.idle.is_empty() {
-                let d = format!("Manager::create called while idle objects {:?} had not been tried", sn.idle);
+        // lazy creation: the get must have found the idle queue empty when it looked (the lock
+        // region in which it popped is the last one of this get before create() is called)
+        absorb_site_log(w);
+        let found = c.op.and_then(|o| w.ops[o].last_lock_idle.clone());
+        if let Some(idle) = found {
+            // objects this very get has already tried and rejected do not count
+            let tried: Vec<u32> = c.op.map(|o| w.ops[o].calls.iter().filter_map(|ci| w.calls[*ci].obj).collect()).unwrap_or_default();
+            let untried: Vec<u32> = idle.iter().copied().filter(|i| !tried.contains(i)).collect();
+            if !untried.is_empty() {
+                let d = format!("Manager::create called by a get() that found idle objects {:?} and did not try them", untried);
                 w.violate("C08", "create_only_when_no_idle", d);
             } else {
                 w.cnt.probe("create_with_empty_queue");
